@@ -253,6 +253,7 @@ func specMutations(f *Func) []Func {
 	add(func(c *Func) bool { ok := c.ErrFirst; c.ErrFirst = false; return ok })
 	add(func(c *Func) bool { ok := c.ErrAt > 0; c.ErrAt = 0; return ok })
 	add(func(c *Func) bool { ok := c.ErrExtra > 0; c.ErrExtra = 0; return ok })
+	add(func(c *Func) bool { ok := c.ErrLike; c.ErrLike = false; return ok })
 	add(func(c *Func) bool { ok := c.Reenter; c.Reenter = false; return ok })
 	add(func(c *Func) bool { ok := c.ThenProvide > 0; c.ThenProvide = 0; return ok })
 	add(func(c *Func) bool {
@@ -261,6 +262,7 @@ func specMutations(f *Func) []Func {
 		c.ErrFirst = false
 		c.ErrAt = 0
 		c.ErrExtra = 0
+		c.ErrLike = false
 		return ok
 	})
 	// flatten parameter objects into positional parameters where legal
